@@ -20,7 +20,7 @@ RULE = (
 )
 BOUNDS = {
     "quick": "shapes m,n<=3 (square only for the complex adjoint), all positions x 4 units, multiplicativity on all basis pairs of shapes<=2 and pattern pairs <=3, 8 bit-pattern classes",
-    "thorough": "same with shapes<=4 and 3 fill rows",
+    "thorough": "same with shapes<=5",
 }
 WALL_BUDGET = {"quick": 240, "thorough": 1200}
 ASSUMPTIONS = ["the oracle embedding is built column by column from the Hamilton table and is itself verified to be a *-homomorphism on all signed-unit pairs (oracle.selftest)"]
@@ -51,7 +51,7 @@ def rank_exact(rows):
 
 
 def cases(tier, seed):
-    S = 3 if tier == "quick" else 4
+    S = 3 if tier == "quick" else 5
     out = []
     for emb in EMB:
         for m, n in itertools.product(range(1, S + 1), repeat=2):
